@@ -71,6 +71,7 @@ func New(id, level string) *Run {
 	r := &Run{ID: id, Level: level, Tier: "quick", start: time.Now(), cov: map[string]any{},
 		violations: map[string]string{}, knownHit: map[string]bool{}, counters: map[string]int64{},
 		distinct: map[string]map[string]struct{}{}, exhaustive: true}
+	current = r
 	if t := os.Getenv("VERIF_TIER"); t == "thorough" || t == "quick" {
 		r.Tier = t
 	}
@@ -316,9 +317,24 @@ func (r *Run) Finish() {
 	os.Exit(0)
 }
 
+// current is the Run of this process (one per check program).
+var current *Run
+
 // Harness aborts with exit 2: the check itself is broken (never a VIOLATION).
+// Violations that had been established (and printed) before the harness broke stay reported: the process then exits 1.
+// On a tree where the property holds there are none, so this never turns a harness error into an alarm.
 func Harness(format string, a ...any) {
 	fmt.Printf("HARNESS-ERROR: "+format+"\n", a...)
+	if r := current; r != nil && r.shardViol == nil {
+		if r.mu.TryLock() {
+			n := len(r.violations)
+			r.mu.Unlock()
+			if n > 0 {
+				fmt.Printf("%s %s: stopped by the harness error above after %d violation(s) had been established; those stand\n", r.ID, r.Tier, n)
+				os.Exit(1)
+			}
+		}
+	}
 	os.Exit(2)
 }
 
